@@ -59,13 +59,36 @@ func newEntryState() *State {
 	return &State{heaps: map[string]string{}, alloc: "alloc0", locals: map[*ssa.Alloc]string{}, ghost: map[string]string{}}
 }
 
+// heapWFAxiom: every slice stored in a heap of slices is well formed (a Go
+// invariant; needed when specs read lengths of nested slices).
+func (c *Ctx) heapWFAxiom(key, name string) string {
+	if key != "Slice" {
+		return ""
+	}
+	return fmt.Sprintf("(forall ((o Int) (i Int)) (! (wfslice (select (select %s o) i)) :pattern ((select (select %s o) i))))", name, name)
+}
+
+// newHeapConst declares a havocked heap.
+func (c *Ctx) newHeapConst(key, prefix string) string {
+	n := c.declConst(heapKey(key)+prefix, c.heapSortOf(key))
+	if ax := c.heapWFAxiom(key, n); ax != "" {
+		c.assume(ax)
+	}
+	return n
+}
+
 // heap returns the current heap term for an element sort.
 func (c *Ctx) heap(st *State, elemSort string) string {
 	if h, ok := st.heaps[elemSort]; ok {
 		return h
 	}
 	name := heapKey(elemSort) + "_0"
-	c.declOnce("heap0:"+name, fmt.Sprintf("(declare-fun %s () %s)", name, c.heapSortOf(elemSort)))
+	if !c.declared["heap0:"+name] {
+		c.declOnce("heap0:"+name, fmt.Sprintf("(declare-fun %s () %s)", name, c.heapSortOf(elemSort)))
+		if ax := c.heapWFAxiom(elemSort, name); ax != "" {
+			c.decl("(assert " + ax + ")")
+		}
+	}
 	return name
 }
 
@@ -132,6 +155,34 @@ type frame struct {
 type modItem struct {
 	sortKey string
 	obj     string // object id term
+	idx     string // element index term; "" = the whole object
+}
+
+// frameFormula: every cell of hNew outside the mod items and below bound
+// (lower/upper) equals hOld.
+func frameFormula(key, hNew, hOld, lower, bound string, mods []modItem, isMap bool) string {
+	var whole, elems []string
+	for _, m := range mods {
+		if m.sortKey != key {
+			continue
+		}
+		if m.idx == "" {
+			whole = append(whole, fmt.Sprintf("(not (= o %s))", m.obj))
+		} else {
+			elems = append(elems, fmt.Sprintf("(not (and (= o %s) (= i %s)))", m.obj, m.idx))
+		}
+	}
+	guard := []string{}
+	if lower != "" {
+		guard = append(guard, "(> o "+lower+")")
+	}
+	guard = append(guard, "(< o "+bound+")")
+	guard = append(guard, whole...)
+	if len(elems) == 0 || isMap {
+		return fmt.Sprintf("(forall ((o Int)) (! (=> %s (= (select %s o) (select %s o))) :pattern ((select %s o))))", and(guard...), hNew, hOld, hNew)
+	}
+	guard = append(guard, elems...)
+	return fmt.Sprintf("(forall ((o Int) (i Int)) (! (=> %s (= (select (select %s o) i) (select (select %s o) i))) :pattern ((select (select %s o) i))))", and(guard...), hNew, hOld, hNew)
 }
 
 func (fr *frame) unsup(format string, args ...interface{}) {
@@ -778,7 +829,7 @@ func (fr *frame) enterLoop(li *loopInfo, preds []*ssa.BasicBlock, conds []string
 	entryHeaps := map[string]string{}
 	for _, k := range ks {
 		entryHeaps[k] = c.heap(st, k)
-		st.heaps[k] = c.declConst(heapKey(k)+"_loop", c.heapSortOf(k))
+		st.heaps[k] = c.newHeapConst(k, "_loop")
 	}
 	for a := range locals {
 		rt := a.Type().Underlying().(*types.Pointer).Elem()
@@ -820,14 +871,7 @@ func (fr *frame) frameTerm(key, hNew, hOld, bound string) string {
 	if hNew == hOld {
 		return "true"
 	}
-	var excl []string
-	for _, m := range fr.modObjs {
-		if m.sortKey == key {
-			excl = append(excl, fmt.Sprintf("(not (= o %s))", m.obj))
-		}
-	}
-	return fmt.Sprintf("(forall ((o Int)) (! (=> %s (= (select %s o) (select %s o))) :pattern ((select %s o))))",
-		and(append([]string{"(> o 0)", "(< o " + bound + ")"}, excl...)...), hNew, hOld, hNew)
+	return frameFormula(key, hNew, hOld, "0", bound, fr.modObjs, strings.HasPrefix(key, "map!"))
 }
 
 func (fr *frame) assumeCounterBound(li *loopInfo, phi *ssa.Phi, init Val, cur Val) {
@@ -883,7 +927,7 @@ func (fr *frame) checkInvariants(li *loopInfo, st *State, kind string) {
 			label = fmt.Sprintf("loop%d:%s", li.ord, label)
 		}
 		o := fr.oblige(kind, label, propsOr(inv.Props, fr.props), v, inv.Text, li.header.Instrs[0].Pos())
-		o.Using = inv.Using
+		o.Using, o.Extra = fr.c.splitUsing(env, inv.Using)
 	}
 }
 
